@@ -285,3 +285,70 @@ def c15(tier, seed, replay=None):
                          "never called (deny list in harness/dispatch_sweep.py)", "derivative agreement is a gross check (1e-2) against finite differences"],
                         time.time() - t0, len(verdict.violations))
     return rc
+
+
+def c18(tier, seed, replay=None):
+    t0 = time.time()
+    quick = tier == "quick"
+    verdict = vlib.Verdict("C18")
+    r = vlib.tlc_must_pass(vlib.run_tlc("MCChecker", workers=1, timeout=600), "check_grads control structure")
+    states, trans = r.distinct, r.generated
+    n = 40 if quick else 400
+    jobs = []
+    for modes in (["fwd"], ["rev"], ["fwd", "rev"], ["rev", "fwd"]):
+        for order in (1, 2, 3):
+            jobs.append({"kind": "paths", "modes": modes, "order": order})
+    kinds = ["scalar", "array", "complex", "container", "matrix"]
+    for arg in kinds:
+        for mode in ("fwd", "rev"):
+            for order in (1, 2):
+                jobs.append({"kind": "correct", "arg": arg, "mode": mode, "order": order, "n": n})
+            defects = ["factor", "sign", "entry"] + (["transpose"] if arg == "matrix" else []) + (["conj"] if arg == "complex" else [])
+            for df in defects:
+                if arg == "scalar" and df == "entry":
+                    continue
+                jobs.append({"kind": "defect", "arg": arg, "mode": mode, "defect": df, "where": mode, "order": 1, "n": n})
+            if arg != "matrix":
+                for df in ("factor", "sign"):
+                    jobs.append({"kind": "defect", "arg": arg, "mode": mode, "defect": df, "where": mode + "2", "order": 2, "n": n})
+    for i, j in enumerate(jobs):
+        j["id"] = i + 1 + (seed % 7) * 1000
+    rows, files = vlib.parallel_replay("checker_replay.py", jobs, nproc=14, tag="checker", timeout=3000)
+    d = vlib.subdir("judge-C18")
+    jfiles = [vlib.write_ndjson(os.path.join(d, "r%d.ndjson" % k), part) for k, part in enumerate(vlib.chunks(rows, 4))]
+    accepted, g2, d2, _w, _inv = vlib.parallel_validate("TraceChecker", jfiles, cfg="SPECIFICATION Spec\n", njvm=4)
+    states += d2
+    trans += g2
+    thr = (n - 22) if n >= 400 else (n - 12 if n >= 100 else (n - 8 if n >= 40 else n - 6))
+    for row in rows:
+        if row["kind"] == "paths":
+            ok = row["id"] in accepted        # the set computation lives in TLC only; a mirror would duplicate Checker.tla
+            why = "check_grads(modes=%s, order=%d) performed the comparisons %s, which is not the required set (%s)" % (row["modes"], row["order"], row["checks"], row["err"])
+        elif row["kind"] == "correct":
+            ok = row["rejected"] == 0
+            why = "a correct rule was rejected in %d of %d runs %s" % (row["rejected"], row["n"], row["errors"])
+        else:
+            ok = row["rejected"] >= thr
+            why = "a planted defect (%s in %s) was rejected in only %d of %d runs (required with probability >= 0.99)" % (row["defect"], row["where"], row["rejected"], row["n"])
+        if row["kind"] != "paths" and ok != (row["id"] in accepted):
+            raise vlib.MachineryError("TLC and the Python mirror disagree on checker row %s" % row)
+        if not ok:
+            verdict.violation({"kind": row["kind"], "arg": row.get("arg", "-"), "defect": row.get("defect", "-"), "where": row.get("where", "-"),
+                               "mode": row.get("mode", "-")}, {"reason": why, "row": row})
+    rej = {"%s/%s/%s/%s" % (r_["arg"], r_["mode"], r_["defect"], r_["where"]): "%d/%d" % (r_["rejected"], r_["n"]) for r_ in rows if r_["kind"] == "defect"}
+    coverage = {"evaluations": sum(r_["n"] for r_ in rows), "distinct_nontrivial": len(rows), "states": states, "transitions": trans,
+                "traces_validated_against_impl": len(rows), "runs_per_cell": n, "rejection_threshold": thr,
+                "rejections_of_planted_defects": rej,
+                "false_rejections_of_correct_rules": sum(r_["rejected"] for r_ in rows if r_["kind"] == "correct"),
+                "rule": "cells = (argument kind in scalar/array/complex/container/matrix) x (mode) x (order 1, 2) for correct rules and x (defect in wrong "
+                        "factor 1.01 / sign / single wrong entry / transpose / missing conjugate; at order 1 or only in the rule's own derivative) for planted "
+                        "defects, each run with %d different random projections; plus the set of numerical comparisons performed for 12 (modes, order) "
+                        "requests; distinct_nontrivial = number of cells" % n,
+                "samples": [rows[0], rows[len(rows) // 2], rows[-1]], "exhaustive": False,
+                "known_findings_reobserved": verdict.known_hits}
+    rc = verdict.finish()
+    vlib.write_evidence("C18", tier, seed, "exploration", coverage,
+                        ["the probability statement (>= 0.99) is sampled, not decided: a cell is reported only if the observed rejection count would have "
+                         "probability < 1e-9 under the property", "TLC decides only the control structure (Checker.tla: which mode paths are compared)"],
+                        time.time() - t0, len(verdict.violations))
+    return rc
